@@ -9,7 +9,7 @@ package absnfs
 //@ specdef rmMax(rm *RecordMarkingReader) mathint = ite(rm.MaxRecordSize <= 0, 1048576, rm.MaxRecordSize)
 
 //@ func RecordMarkingReader.ReadRecord
-//@ prop C13 C15
+//@ prop C13 C15:safety
 //@ allocbound rmMax(rm)
 //@ requires rm != nil && rm.fragmentBuf != nil && rm.MaxRecordSize <= 1073741824
 //@ modifies rpos, wlen, wdata, elems(byte), rm.lastFragment, rm.complete
@@ -50,19 +50,19 @@ package absnfs
 
 
 //@ func NewRecordMarkingReader
-//@ prop C28 C15
+//@ prop C28 C15:safety
 //@ ensures [init] result != nil && fresh(result) && result.r == r && result.fragmentBuf != nil && result.MaxRecordSize == 1048576
 
 //@ func NewRecordMarkingWriter
-//@ prop C28 C15
+//@ prop C28 C15:safety
 //@ ensures [init] result != nil && fresh(result) && result.w == w && result.maxFragment == 1048576
 
 //@ func NewRecordMarkingConn
-//@ prop C28 C15
+//@ prop C28 C15:safety
 //@ ensures [wired] result != nil && fresh(result) && result.reader != nil && result.reader.fragmentBuf != nil && result.reader.r == r && result.reader.MaxRecordSize == 1048576 && result.writer != nil && result.writer.w == w && result.writer.maxFragment == 1048576 && fresh(result.reader) && fresh(result.writer)
 
 //@ func RecordMarkingConn.ReadRecord
-//@ prop C28 C15
+//@ prop C28 C15:safety
 //@ requires c != nil && c.reader != nil && c.reader.fragmentBuf != nil && c.reader.MaxRecordSize <= 1073741824
 //@ modifies rpos, wlen, wdata, elems(byte), RecordMarkingReader.lastFragment, RecordMarkingReader.complete
 //@ ensures [bounded] isnil(result1) ==> len(result0) <= rmMax(c.reader) && fresh(result0)
